@@ -1958,3 +1958,165 @@ def _(m, callee, args):
     if is_sym(n):
         raise Unsupported('repeat with a symbolic count')
     return RStr(list(s.cs) * n)
+
+
+# ------------------------------------------------------------------ OpenOptions with flags; bool -> integer; iter::repeat / take
+class OpenOpts:
+    def __init__(self):
+        self.read = self.write = self.create = self.truncate = self.append = self.create_new = False
+
+
+def _oo_new(m, callee, args):
+    return OpenOpts()
+
+
+_prepend(r'^OpenOptions::new$|^File::options$', _oo_new)
+
+
+def _oo_flag(m, callee, args):
+    r = args[0]
+    oo = deref_all(m, r)
+    if not isinstance(oo, OpenOpts):
+        oo = OpenOpts()
+    flag = callee.rsplit('::', 1)[1]
+    val = args[1]
+    if is_sym(val):
+        raise Unsupported('symbolic OpenOptions flag')
+    setattr(oo, flag, bool(val))
+    if isinstance(r, Ref):
+        m.write_place(r.frame, r.place, oo)
+    return r if isinstance(r, (Ref, ValRef)) else ValRef(oo)
+
+
+_prepend(r'^OpenOptions::(read|write|create|truncate|append|create_new)$', _oo_flag)
+
+
+def _oo_open(m, callee, args):
+    fs = m.env.get('fs')
+    oo = deref_all(m, args[0])
+    if not isinstance(fs, FSModel):
+        return None
+    if not isinstance(oo, OpenOpts):
+        oo = OpenOpts()
+        oo.read = oo.write = True
+    assert m.env.get('lock_held', True), 'file touched without the lock'
+    p = fs.resolve(m, args[1])
+    e = fs.check_parent(p)
+    if e:
+        return ERR(io_err(e))
+    n = fs.nodes.get(p)
+    if n is not None and n[0] == 'dir':
+        return ERR(io_err('EISDIR'))
+    if n is None:
+        if not (oo.create or oo.create_new) or not (oo.write or oo.append):
+            return ERR(io_err('ENOENT'))
+        fs.nodes[p] = ['file', []]
+        fs.log.append(('create', p))
+    else:
+        if oo.create_new:
+            return ERR(io_err('EEXIST'))
+        if oo.truncate and oo.write:
+            fs.nodes[p] = ['file', []]
+            fs.log.append(('create', p))
+        else:
+            fs.log.append(('open', p))
+    f = File2(p)
+    if oo.append:
+        f.cur = len(fs.nodes[p][1])
+    return OK(f)
+
+
+def _oo_open_both(m, callee, args):
+    r = _oo_open(m, callee, args)
+    if r is None:
+        return _f2_open(m, callee, args) or ERR(io_err('ENOENT'))
+    return r
+
+
+_prepend(r'^OpenOptions::open::<', _oo_open_both)
+
+
+def _file_set_len(m, callee, args):
+    f = deref_all(m, args[0])
+    fs = _fs(m)
+    n = args[1]
+    cur = fs.nodes[f.path][1]
+    fs.nodes[f.path][1] = cur[:n] + [0] * max(0, n - len(cur))
+    fs.log.append(('write', f.path))
+    return OK(())
+
+
+_prepend(r'^File::set_len$', _file_set_len)
+
+
+@model(r'^<(usize|u8|u16|u32|u64|i32|i64|isize) as From<bool>>::from$')
+def _(m, callee, args):
+    v = args[0]
+    if is_sym(v):
+        return z3.If(v, z3.BitVecVal(1, 64), z3.BitVecVal(0, 64))
+    return 1 if v else 0
+
+
+@model(r'^(std::iter::)?repeat::<|^(std::iter::)?repeat_n::<')
+def _(m, callee, args):
+    if 'repeat_n' in callee:
+        return PyIter('list', items=[args[0]] * args[1], pos=0)
+    return PyIter('repeat', value=args[0])
+
+
+@model(r' as Iterator>::take$')
+def _(m, callee, args):
+    it = deref_all(m, args[0]) if not isinstance(args[0], PyIter) else args[0]
+    n = args[1]
+    if is_sym(n):
+        raise Unsupported('take() with a symbolic count')
+    if isinstance(it, PyIter) and it.kind == 'repeat':
+        return PyIter('list', items=[it.value] * n, pos=0)
+    out = []
+    for _ in range(n):
+        v = it_next(m, it)
+        if v is None:
+            break
+        out.append(v)
+    return PyIter('list', items=out, pos=0)
+
+
+@model(r'^<Vec<.*> as Extend<.*>>::extend::<|^Vec::<.*>::extend::<|^Vec::<.*>::extend_from_slice$')
+def _(m, callee, args):
+    r = args[0]
+    v = deref_all(m, r)
+    src = args[1]
+    d = deref_all(m, src)
+    if isinstance(d, RVec):
+        new = list(d.items)
+    elif isinstance(d, list):
+        new = list(d)
+    else:
+        new = drain(m, into_iter(m, src) if not isinstance(d, (PyIter, Iter)) else src)
+    if isinstance(r, Ref):
+        m.write_place(r.frame, r.place, RVec(v.items + new))
+    else:
+        v.items.extend(new)
+    return ()
+
+
+@model(r'^(std|core)::mem::(replace|take|swap)::<')
+def _(m, callee, args):
+    op = re.search(r'mem::(\w+)::<', callee).group(1)
+    r = args[0]
+    old = m.read_place(r.frame, r.place) if isinstance(r, Ref) else deref_all(m, r)
+    if op == 'replace':
+        m.write_place(r.frame, r.place, args[1])
+        return old
+    if op == 'take':
+        ty = callee
+        dflt = False if '<bool>' in ty else (RStr([]) if 'String' in ty else (NONE() if 'Option<' in ty else (0 if re.search(r'<(u|i)(\d+|size)>', ty) else None)))
+        if dflt is None:
+            raise Unsupported('mem::take of ' + ty)
+        m.write_place(r.frame, r.place, dflt)
+        return old
+    r2 = args[1]
+    other = m.read_place(r2.frame, r2.place)
+    m.write_place(r.frame, r.place, other)
+    m.write_place(r2.frame, r2.place, old)
+    return ()
